@@ -348,7 +348,9 @@ LEVELSETS = [['1.0000', '0.9975', '0.9900', '0.9500'],
              ['   0.0', '1000.0', ' 925.0', ' 850.0'],
              ['0.0000', '  10.0', ' 250.0', '5000.0'],
              ['1.0000', '.99750', '.50000', '.00100'],
-             ['    0.', ' 1000.', '  925.', '  500.']]
+             ['    0.', ' 1000.', '  925.', '  500.'],
+             # sigma levels below 1 with a non-zero fifth decimal
+             ['1.0000', '.99715', '.50005', '.00123']]
 TIMES0 = [[99, 12, 31, 21], [0, 2, 28, 18], [4, 2, 29, 0], [20, 6, 15, 12],
           [95, 10, 16, 23], [12, 12, 31, 22], [3, 1, 31, 23], [96, 2, 28, 0],
           [21, 11, 30, 6], [99, 12, 1, 0]]
@@ -614,6 +616,13 @@ def check_field(spec):
     if not ok:
         return r
     cvar, prec, nexp, var1, ksum = res
+    # other fields of the same shape are packed before the first result is
+    # looked at: results of earlier calls must not change
+    npk = (int(abs(float(x[0, -1])) * 8) + nx) % 3
+    for k in range(npk):
+        guard(r, 'pack-raises', lambda: pack2d(
+            (xin[::-1, ::-1] * (k + 2) + 1).copy()))
+    r.label('packs-in-between=%d' % npk)
     b = np.asarray(cvar).view('uint8').reshape(ny, nx)
     nexp = int(nexp)
     # weaker of the two readings of the statement: one step 2^(NEXP-7) /
